@@ -156,6 +156,21 @@ def run_engine_property(ctx, pid, oracles, feat=None, faults=0.25, n=None, nstep
                     ctx.replay_file('scan-mismatch', h.text())
         st_['mismatching builds'] = nbad
         scanst = dict(st_)
+    # correspondence of the scan model WITH scan-time dyndep loads (coq/Engine/ScanDynDefs.v; scenarios with dyndep)
+    scandynst = {}
+    if scan_accept and ctx.model and os.path.exists(os.path.join(os.path.dirname(ctx.model), 'scandyn_run')):
+        import scandynmodel
+        os.environ['SCANDYNMODEL_BIN'] = os.path.join(os.path.dirname(ctx.model), 'scandyn_run')
+        crashed = {hh.sid for hh, _, _ in getattr(ec.run_hists, 'crashes', [])}
+        wdd = [h for h in hists if scandynmodel.has_dyndep(h) and h.sid not in crashed][:scan_accept]
+        bad_, st_ = scandynmodel.check_all(wdd, tr, out)
+        seen_ = set()
+        for h, m in bad_:
+            if h.sid in seen_ or len(seen_) >= 5: continue
+            seen_.add(h.sid)
+            ctx.corr_broken.append('scan model (dyndep) differs from ninja\'s scan in scenario %s: %s' % (h.sid, m[:400]))
+            ctx.replay_file('scandyn-mismatch', h.text())
+        scandynst = dict(st_)
     kinds = {}
     for h in hists:
         for s in h.steps: kinds[s.kind] = kinds.get(s.kind, 0) + 1
@@ -164,5 +179,5 @@ def run_engine_property(ctx, pid, oracles, feat=None, faults=0.25, n=None, nstep
                         'validations, pools, rspfile) x histories of %d-%d change steps (edit/touch/rm output/command+rsp change/deps change/droplog/dropdeps) x builds with '
                         'random targets, -j, -k, completion schedules and failing commands; one evaluation = one ninja invocation; non-trivial = it started at least one command' % (
                             nedges[0], nedges[1] - 1, nsteps[0], nsteps[1] - 1),
-                   samples=samples, distribution=dict(scenarios=len(hists), steps=kinds), traces_validated_against_model=accept.get('replayed', 0), plan_model_acceptance=accept, scan_model_correspondence=scanst)
+                   samples=samples, distribution=dict(scenarios=len(hists), steps=kinds), traces_validated_against_model=accept.get('replayed', 0), plan_model_acceptance=accept, scan_model_correspondence=scanst, scandyn_model_correspondence=scandynst)
     return hists, tr
